@@ -50,9 +50,11 @@ VARIABLES
   nreq,     \* e -> reset request sequence number
   closed,   \* objects on which close() was called
   bad,      \* first violated clause observed inside an action ("" if none)
-  nsend, ncreate, nlost
+  nsend, ncreate, nlost,
+  act       \* the action that led here, with its parameters (history; hidden by View; used by the lock-step replay)
 
-vars == <<obj, est, reg, dcq, fifo, rq, req, bag, nreq, closed, bad, nsend, ncreate, nlost>>
+vars == <<obj, est, reg, dcq, fifo, rq, req, bag, nreq, closed, bad, nsend, ncreate, nlost, act>>
+View == <<obj, est, reg, dcq, fifo, rq, req, bag, nreq, closed, bad, nsend, ncreate, nlost>>
 
 NoObj == [used |-> FALSE, owner |-> "A", id |-> NoId, rs |-> 0, remote |-> FALSE, pair |-> 0, nopen |-> 0, nclose |-> 0]
 FreeObjs == {o \in Objs : ~obj[o].used}
@@ -72,6 +74,7 @@ Init ==
   /\ rq = [e \in E |-> <<>>] /\ req = [e \in E |-> {}]
   /\ bag = {} /\ nreq = [e \in E |-> 0]
   /\ closed = {} /\ bad = "" /\ nsend = 0 /\ ncreate = 0 /\ nlost = 0
+  /\ act = [op |-> "init"]
 
 -----------------------------------------------------------------------------
 (* State transformers on a record st = [obj, reg, dcq, fifo, rq, req, bag, nreq] *)
@@ -149,6 +152,7 @@ Establish(e) ==
                                         !.reg[e] = IF needId THEN (i :> o) @@ @ ELSE @,
                                         !.fifo[e] = Append(@, [sid |-> i, kind |-> it.kind, o |-> o])])
        IN Commit(F(st))
+  /\ act' = [op |-> "establish", e |-> e]
   /\ UNCHANGED <<closed, bad, nsend, ncreate, nlost>>
 
 Create(e) ==
@@ -158,18 +162,21 @@ Create(e) ==
                            !.dcq[e] = Append(@, [o |-> o, kind |-> "OPEN"])]
      IN Commit(st0)      \* the flush runs as a separate task (FlushTask)
   /\ ncreate' = ncreate + 1
+  /\ act' = [op |-> "create", e |-> e, o |-> NewObj]
   /\ UNCHANGED <<est, closed, bad, nsend, nlost>>
 
 Send(e, o) ==
   /\ obj[o].used /\ obj[o].owner = e /\ obj[o].rs = 1 /\ nsend < MaxSend
   /\ Commit([St EXCEPT !.dcq[e] = Append(@, [o |-> o, kind |-> "MSG"])])
   /\ nsend' = nsend + 1
+  /\ act' = [op |-> "send", e |-> e, o |-> o]
   /\ UNCHANGED <<est, closed, bad, ncreate, nlost>>
 
 \* the _data_channel_flush task scheduled by _data_channel_open / _data_channel_send
 FlushTask(e) ==
   /\ est[e] = "up" /\ dcq[e] # <<>>
   /\ Commit(TxReconfig(Flush(St, e), e))
+  /\ act' = [op |-> "flush", e |-> e]
   /\ UNCHANGED <<est, closed, bad, nsend, ncreate, nlost>>
 
 \* Without AllowReuse the application closes only when no other channel is still waiting
@@ -183,9 +190,12 @@ Close(e, o) ==
   /\ AllowReuse \/ NoPendingIds(o)
   /\ Commit(CloseCh(St, e, o))
   /\ closed' = closed \cup {o}
+  /\ act' = [op |-> "close", e |-> e, o |-> o]
   /\ UNCHANGED <<est, bad, nsend, ncreate, nlost>>
 
-\* one DATA chunk of the peer is delivered (and thereby acknowledged)
+\* one DATA chunk of the peer is delivered (and thereby acknowledged: the SACK goes straight
+\* back; _receive_sack_chunk at the sender ends with _data_channel_flush and _transmit_reconfig)
+Acked(st, p) == TxReconfig(Flush(st, p), p)
 DeliverData(e) ==
   LET p == Peer(e) IN
   /\ est[e] = "up" /\ fifo[p] # <<>>
@@ -203,17 +213,18 @@ DeliverData(e) ==
                                              !.reg[e] = (it.sid :> o) @@ @,
                                              !.dcq[e] = Append(@, [o |-> o, kind |-> "ACK"])]
                       IN /\ FreeObjs # {}
-                         /\ Commit(TxReconfig(Flush(st1, e), p))
+                         /\ Commit(Acked(Flush(st1, e), p))
                          /\ bad' = (IF bad = "" /\ srcSeen THEN "datachannel_event_twice" ELSE bad)
           [] it.kind = "ACK" ->
                /\ IF known /\ (obj[reg[e][it.sid]].rs = 0 \/ "AckReopens" \in Dev)
-                    THEN Commit(TxReconfig([st0 EXCEPT !.obj = SetRs(@, reg[e][it.sid], 1)], p))
-                    ELSE Commit(TxReconfig(st0, p))
+                    THEN Commit(Acked([st0 EXCEPT !.obj = SetRs(@, reg[e][it.sid], 1)], p))
+                    ELSE Commit(Acked(st0, p))
                /\ UNCHANGED bad
           [] OTHER ->      \* user message
-               /\ Commit(TxReconfig(st0, p))
+               /\ Commit(Acked(st0, p))
                /\ bad' = (IF bad = "" /\ known /\ obj[reg[e][it.sid]].pair # it.o /\ obj[it.o].pair # reg[e][it.sid]
                             THEN "message_on_wrong_channel" ELSE bad)
+  /\ act' = [op |-> "data", e |-> e, sid |-> Head(fifo[p]).sid, kind |-> Head(fifo[p]).kind]
   /\ UNCHANGED <<est, closed, nsend, ncreate, nlost>>
 
 DeliverReconfig(m) ==
@@ -238,11 +249,13 @@ DeliverReconfig(m) ==
                       /\ bad' = (IF bad = "" /\ \E i \in req[e] : i \notin DOMAIN reg[e]
                                    THEN "reset_of_unregistered_stream" ELSE bad)
               ELSE Commit(st0) /\ UNCHANGED bad
+  /\ act' = [op |-> "reconfig", e |-> e, kind |-> m.kind, ids |-> m.ids, n |-> m.n]
   /\ UNCHANGED <<est, closed, nsend, ncreate, nlost>>
 
 LoseReconfig(m) ==
   /\ "LossyReconfig" \in Dev /\ m \in bag /\ nlost < 1
   /\ bag' = bag \ {m} /\ nlost' = nlost + 1
+  /\ act' = [op |-> "lose", e |-> m.to, kind |-> m.kind, ids |-> m.ids, n |-> m.n]
   /\ UNCHANGED <<obj, est, reg, dcq, fifo, rq, req, nreq, closed, bad, nsend, ncreate>>
 
 \* _set_state(CLOSED): abort / shutdown / transport failure at e
@@ -256,6 +269,7 @@ AssocEnd(e) ==
      IN /\ obj' = Fin(obj, regd \cup queued)
         /\ reg' = [reg EXCEPT ![e] = <<>>]
         /\ dcq' = [dcq EXCEPT ![e] = <<>>]
+  /\ act' = [op |-> "end", e |-> e]
   /\ UNCHANGED <<fifo, rq, req, bag, nreq, closed, bad, nsend, ncreate, nlost>>
 
 Next ==
